@@ -251,7 +251,7 @@ fn boundary_cases(tier: Tier) -> Vec<Case> {
         });
     }
     // message sizes
-    for (i, &ml) in [0usize, 1 << 20].iter().enumerate() {
+    for (i, &ml) in [0usize, 1 << 20, (1 << 20) + 1, (1 << 22) + 3].iter().enumerate() {
         out.push(Case {
             suite: if i % 2 == 0 { SuiteId::Shake256 } else { SuiteId::Sha256 },
             key: key.clone(),
@@ -267,7 +267,7 @@ fn boundary_cases(tier: Tier) -> Vec<Case> {
         });
     }
     // header sizes
-    for hl in [65536usize, 1 << 20] {
+    for hl in [65536usize, 1 << 20, (1 << 20) + 1, (1 << 22) + 3] {
         out.push(Case {
             suite: SuiteId::Sha256,
             key: key.clone(),
@@ -365,7 +365,7 @@ pub fn run(ctx: &Ctx, rep: &Report) -> Meta {
             .into(),
         assumptions: vec![
             "library linked as an ordinary dependency (cfg(not(test)), features bbsplus+bbsplus_blind+cl03)".into(),
-            "sizes bounded: L <= 2500 quick / 10000 thorough, messages <= 1 MiB, header <= 1 MiB".into(),
+            "sizes bounded: L <= 2500 quick / 10000 thorough, messages and header <= 4 MiB + 3 octets (1 MiB, 1 MiB + 1 and 4 MiB + 3 are generated)".into(),
         ],
     }
 }
